@@ -82,6 +82,14 @@ const verifIdentAlphabet = "a-c_"
 
 // genDoc: a model or module document with one relation under test (full
 // shape), optional sibling relations / types / conditions with symbolic names.
+// the condition expressions of the generated documents, as token texts
+var verifExprMenu = [][]string{
+	{"x", " ", "<", " ", "1"},
+	{"x", " ", "<", "\n  ", "1"},
+	{"x", " ", "%", " ", "2", " ", "==", " ", "0"},
+	{"x", " ", "==", " ", "\"100%\"", " ", "&&", " ", "x", " ", "==", " ", "\"%s%d\""},
+}
+
 func genDoc() *dDoc {
 	n := zzverif.Param("N", 2)
 	d := &dDoc{schema: "1.1"}
@@ -145,14 +153,17 @@ func genDoc() *dDoc {
 	for i := 0; i < nc; i++ {
 		c := dCond{name: zzverif.Str("cond", 1, n, verifIdentAlphabet), expr: []string{"x", " ", "<", " ", "1"}}
 		if zzverif.Param("EXPRS", 0) == 1 {
-			switch zzverif.Choose("expression-layout", 4) {
+			switch k := zzverif.Choose("expression-layout", 6); k {
 			case 1:
-				c.expr = []string{"x", " ", "<", "\n  ", "1"} // wrapped over two lines
+				c.expr = verifExprMenu[1] // wrapped over two lines
 			case 2:
-				c.expr = []string{"x", " ", "<", "\n  ", "1"}
+				c.expr = verifExprMenu[1]
 				c.closeSameLine = true // closing brace on the last expression line
 			case 3:
 				c.closeSameLine = true
+			case 4, 5:
+				// percent signs in the expression (printf-style formatting of the text must not interpret them)
+				c.expr = verifExprMenu[k-2]
 			}
 		}
 		np := zzverif.Param("PARAMS", 0)
@@ -267,6 +278,8 @@ func checkModelIsReading(d *dDoc, m *openfgav1.AuthorizationModel, ext map[strin
 			continue
 		}
 		zzverif.Assert(verifSquash(cd.GetExpression()) == verifSquash(strings.Join(c.expr, "")), "expression-text-modulo-whitespace")
+		// exactly the expression as written: the layout in front of the closing brace is not part of it
+		zzverif.Assert(cd.GetExpression() == strings.Join(c.expr, ""), "expression-text-is-what-was-written")
 		zzverif.Assert(len(cd.GetParameters()) == len(c.params), "every-parameter-is-reflected")
 		for _, p := range c.params {
 			ref := cd.GetParameters()[p.name]
@@ -384,6 +397,11 @@ func docFromModel(m *openfgav1.AuthorizationModel) *dDoc {
 	for _, n := range cnames {
 		c := m.GetConditions()[n]
 		dc := dCond{name: n, expr: []string{"x", " ", "<", " ", "1"}}
+		for _, pieces := range verifExprMenu {
+			if strings.Join(pieces, "") == c.GetExpression() {
+				dc.expr = pieces
+			}
+		}
 		var pn []string
 		for p := range c.GetParameters() {
 			pn = append(pn, p)
